@@ -28,6 +28,19 @@ def _dtc(d=2):
     return DecisionTreeClassifier(max_depth=d, random_state=0)
 
 
+def _kbins(n=3):
+    from sklearn.preprocessing import KBinsDiscretizer
+    return KBinsDiscretizer(n_bins=n, encode="onehot", strategy="uniform")
+
+
+def data_labels4(rng, n=None, d=2):
+    X, _ = data_reg(rng, n, d)
+    labs = [2, 5, 7, 11]
+    y = numpy.array([labs[rng.randrange(4)] for _ in range(X.shape[0])])
+    y[:4] = labs
+    return X, y
+
+
 def _km(k=2):
     from sklearn.cluster import KMeans
     return KMeans(n_clusters=k, n_init=2, random_state=0)
@@ -125,6 +138,11 @@ def _bad_inf_y(X, y):
     return X, y2, {}
 
 
+def _bad_l1_weights(X, y):
+    # norm='L1' documents NotImplementedError for non uniform weights
+    return X, y, {"sample_weight": numpy.array([1.0 + (i % 2) for i in range(X.shape[0])])}
+
+
 def _bad_too_few(X, y):
     return X[:1], (y[:1] if y is not None else None), {}
 
@@ -145,6 +163,15 @@ def entries():
                    lambda k: M.KMeansL1L2(n_clusters=[2, 3][k], norm=["L1", "L2"][k], n_init=2, random_state=[0, 1][k], max_iter=20),
                    [("n_clusters", v(2, 3)), ("norm", v("L2", "L1")), ("max_iter", v(10, 30)), ("random_state", v(3, 4)), ("init", v("random", "k-means++"))],
                    data_clu, ["predict", "transform"], seed="rs", bad=[("n < k", _bad_too_few)]))
+    E.append(Entry("KMeansL1L2[L1,init=array]",
+                   lambda k: M.KMeansL1L2(n_clusters=2, norm="L1", n_init=[3, 10][k], max_iter=20,
+                                          init=numpy.array([[0.0, 0.0], [9.0, 9.0]]) + k),
+                   [("max_iter", v(10, 30)), ("n_init", v(2, 4)), ("tol", v(1e-3, 1e-4))],
+                   data_clu, ["predict", "transform"], seed="rs", bad=[("n < k", _bad_too_few), ("weights", _bad_l1_weights)]))
+    E.append(Entry("ConstraintKMeans[weights]",
+                   lambda k: M.ConstraintKMeans(n_clusters=[2, 3][k], strategy="weights", max_iter=[20, 10][k], random_state=[0, 1][k], n_init=2),
+                   [("max_iter", v(10, 20)), ("learning_rate", v(0.5, 1.0))],
+                   data_clu, ["predict", "transform"], seed="global"))
     E.append(Entry("ConstraintKMeans",
                    lambda k: M.ConstraintKMeans(n_clusters=[2, 3][k], strategy="distance", max_iter=[40, 10][k],
                                                 random_state=[0, 1][k], n_init=2, kmeans0=[True, False][k]),
@@ -156,6 +183,14 @@ def entries():
                    [("binner", [lambda: _dtr(1), lambda: _dtr(3)]), ("binner__max_depth", v(1, 2)), ("estimator", [_lr, lambda: _dtr(1)]),
                     ("n_jobs", v(None, 2)), ("verbose", v(True, False))],
                    data_reg, ["predict"], bad=[("short y", _bad_short_y), ("weights length", _bad_weights)]))
+    E.append(Entry("PiecewiseRegressor[bins]",
+                   lambda k: M.PiecewiseRegressor(binner=_kbins([3, 4][k]), estimator=_lr()),
+                   [("binner__n_bins", v(3, 4)), ("n_jobs", v(None, 2))],
+                   data_reg, ["predict"], bad=[("short y", _bad_short_y)]))
+    E.append(Entry("PiecewiseClassifier[bins]",
+                   lambda k: M.PiecewiseClassifier(binner=_kbins([3, 4][k]), estimator=_dtc(1), random_state=[0, 3][k]),
+                   [("binner__n_bins", v(3, 4)), ("random_state", v(1, 2))],
+                   data_clf, ["predict", "predict_proba"], seed="rs"))
     E.append(Entry("PiecewiseClassifier",
                    lambda k: M.PiecewiseClassifier(binner=_dtc([1, 2][k]), estimator=_logreg(), random_state=[0, 7][k]),
                    [("binner__max_depth", v(1, 2)), ("estimator__C", v(0.5, 2.0)), ("random_state", v(1, 2)), ("estimator", [_logreg, lambda: _dtc(1)])],
@@ -198,7 +233,7 @@ def entries():
                    [("fct", v("log1p", "expm1"))], data_pos, [], rowwise=False))
     E.append(Entry("PermutationReciprocalTransformer",
                    lambda k: M.PermutationReciprocalTransformer(random_state=[0, 5][k]),
-                   [("random_state", v(1, 2)), ("closest", v(False,))], lambda rng: data_clf(rng, labels=(2, 5)), [], seed="rs", rowwise=False))
+                   [("random_state", v(1, 2)), ("closest", v(False,))], data_labels4, [], seed="rs", rowwise=False))
     E.append(Entry("TransformedTargetRegressor2",
                    lambda k: M.TransformedTargetRegressor2(regressor=[_lr(), _dtr(2)][k], transformer=["log", "log1p"][k]),
                    [("transformer", v("log1p", "log")), ("regressor", [_lr, lambda: _dtr(1)]), ("regressor__fit_intercept", v(False, True))],
